@@ -1,4 +1,4 @@
-import Eav
+import Eav.Model
 /-!
 Line-protocol driver for the model (`lean_exe eavdrv`): reads the op file written by the C harness
 (ops + recorded IDN conversions), prints one canonical result line per op, in the same format
@@ -142,6 +142,11 @@ def handle (be : Backend) (b : Build) (toks : List String) : String :=
     match isEmail b (fun _ => c) (modeOf m) (unhex s) (t == "1") with
     | .ok r => "E " ++ showResult b r
     | .error f => "E " ++ showFault f
+  | "C" :: m :: t :: s :: rest =>
+    let c := (parseConvs rest).head?.getD noConv
+    match isEmail b (fun _ => c) (modeOf m) (unhex s) (t == "1") with
+    | .ok r => "C " ++ showInt r.rc ++ " " ++ showInt (if r.rc == -2 then r.idnRc else 0)
+    | .error f => "C " ++ showFault f
   | "P" :: m :: t :: k :: s :: rest =>
     let c := (parseConvs rest).head?.getD noConv
     let ops : List Op := [.init, .setRfc (rfcOf m), .setTld (t == "1"), .setMask (k.toNat?.getD 0), .setup]
@@ -173,6 +178,16 @@ def handle (be : Backend) (b : Build) (toks : List String) : String :=
     let groups := (splitGroups rest).map parseConvs
     -- the first group precedes the first `|` marker and is always empty
     "H " ++ runHistory be b script (groups.drop 1)
+  | ["sL", m, s] =>
+    let lm := if m == "822" then Spec.LMode.m822 else if m == "5321" then .m5321 else if m == "5322" then .m5322 else .m6531
+    "sL " ++ bit (Spec.specLocalBytes lm (unhex s))
+  | ["sU", s] => "sU " ++ bit (Spec.decodeAll (unhex s)).isSome
+  | ["sD", us, s] => "sD " ++ bit (Spec.specHost (us == "1") (unhex s))
+  | ["sI", s] =>
+    let d := unhex s
+    "sI " ++ bit (Spec.literalUpper d) ++ bit (Spec.literalLower d) ++ bit (Spec.literalIsV4 d)
+  | ["sS", s] => "sS " ++ bit (Spec.reserved (unhex s))
+  | ["sT", s] => "sT " ++ (match Spec.csvClass Gen.csvPuny (unhex s) with | some c => toString c | none => "-26")
   | t :: _ => t ++ " BADOP"
   | [] => ""
 
